@@ -100,10 +100,6 @@ Proof.
   - unfold mk_and. rewrite elen_And. apply elen_list_lits.
 Qed.
 
-(* a run of literals that all jump on the same truth value c to the same target *)
-Fixpoint chain_code (c : bool) (tg : tgt) (ls : list lit) : list instr :=
-  match ls with [] => [] | l :: r => lval l ++ ljmp l c tg :: chain_code c tg r end.
-
 Lemma and_back_chain : forall ls, and_back ls = chain_code false TTop ls.
 Proof. induction ls as [|l r IH]; [reflexivity|]. cbn [and_back chain_code]. rewrite IH. reflexivity. Qed.
 
